@@ -79,22 +79,25 @@ Definition lincomb_tree (a b : V) (x1 x2 old : buf) (o1 o2 e12 : bool) : buf :=
   else axpy_ x1 (if nneqb b' none_ then scal_ b' x2 else x2) a'.
 
 (* space.lincomb(a, x1, b, x2, out) on fewer than THRESHOLD_SMALL entries.  The source
-   has (variant g = false)  out.data[:] = a * x1.data + b * x2.data  with no test on a, b,
-   so the old contents of an aliased out take part even when their coefficient is 0; the
-   repaired form (variant g = true) skips zero terms like the other regimes.  Which
-   variant the current source has is REGENERATED as [small_guarded] (Gen/C03Bodies.v). *)
-Definition lincomb_small (g : bool) (a b : V) (x1 x2 : buf) (n : nat) : buf :=
-  if g then
-    if (a =? nzero) && (b =? nzero) then zeros n
-    else if b =? nzero then map (fun u => a * u) x1
-    else if a =? nzero then map (fun v => b * v) x2
-    else vlin a x1 b x2
-  else vlin a x1 b x2.
-Definition lincomb_data_g (g : bool) (a b : V) (x1 x2 old : buf) (o1 o2 e12 : bool) : buf :=
+   has (variant SvUnguarded)  out.data[:] = a * x1.data + b * x2.data  with no test on
+   a, b, so the old contents of an aliased out take part even when their coefficient is
+   0.  Which variant the current source has is REGENERATED as [small_guarded]
+   (Gen/C03Bodies.v); the two repaired forms are modelled as well. *)
+Definition lincomb_small (g : small_variant) (a b : V) (x1 x2 : buf) (n : nat) : buf :=
+  match g with
+  | SvUnguarded => vlin a x1 b x2
+  | SvZeroZero => if (a =? nzero) && (b =? nzero) then zeros n else vlin a x1 b x2
+  | SvGuarded =>
+      if (a =? nzero) && (b =? nzero) then zeros n
+      else if b =? nzero then map (fun u => a * u) x1
+      else if a =? nzero then map (fun v => b * v) x2
+      else vlin a x1 b x2
+  end.
+Definition lincomb_data_g (g : small_variant) (a b : V) (x1 x2 old : buf) (o1 o2 e12 : bool) : buf :=
   if (length old <? threshold_small)%nat then lincomb_small g a b x1 x2 (length old)
   else lincomb_tree a b x1 x2 old o1 o2 e12.
 
-Definition do_lincomb_g (g : bool) (a : V) (i1 : nat) (b : V) (i2 : nat) (o : nat) : M unit := fun s =>
+Definition do_lincomb_g (g : small_variant) (a : V) (i1 : nat) (b : V) (i2 : nat) (o : nat) : M unit := fun s =>
   match rd s i1, rd s i2, rd s o with
   | Some (sp1, d1), Some (sp2, d2), Some (spo, dold) =>
       if sp_eqb sp1 spo && sp_eqb sp2 spo then
@@ -104,7 +107,7 @@ Definition do_lincomb_g (g : bool) (a : V) (i1 : nat) (b : V) (i2 : nat) (o : na
   end.
 Definition lincomb_data := lincomb_data_g small_guarded.
 Definition do_lincomb := do_lincomb_g small_guarded.
-Definition do_set_zero_g (g : bool) (o : nat) : M unit := do_lincomb_g g nzero o nzero o o.
+Definition do_set_zero_g (g : small_variant) (o : nat) : M unit := do_lincomb_g g nzero o nzero o o.
 (* lincomb(a, x1, out=o): b is None -> _lincomb(a, x1, 0, x1, out) *)
 Definition do_lincomb1 (a : V) (i1 o : nat) : M unit := do_lincomb a i1 nzero i1 o.
 Definition do_assign (o src : nat) : M unit := do_lincomb1 none_ src o.
